@@ -56,35 +56,176 @@ def define_sites(ctx, f, role_of_step):
                 ctx.violation("R04.1", "%s:define_signals:filter-shape" % f["path"].split("::")[-1], n["sp"], "UNRECOGNISED: the filter is not a closure literal: %s" % show(n["args"][3]))
                 continue
             pb = binding_of_pat(cl["params"][0])
+            body_, idiom = strip_membership_idiom(peel_block(cl["body"]), pb)
             try:
-                flt = bp.extract(peel_block(cl["body"]), {pb[1]: "info"}, defs, step_atoms)
+                flt = bp.extract(body_, {pb[1]: "info"}, defs, step_atoms) if body_ is not None else ("const", True)
             except bp.Opaque as e:
                 ctx.violation("R04.1", "%s:define_signals:filter-opaque" % f["path"].split("::")[-1], n["sp"], "UNRECOGNISED (fail closed): filter `%s` contains `%s` (%s)" % (show(cl["body"]), show(e.node), e.why))
                 continue
             # guard: enclosing if conditions
             guard = ("const", True)
             bad = False
+            state_loop = None
             for a in reversed(ix.ancestors(n)):
                 if a.get("k") == "if":
                     in_then = contains(a["then"], n)
+                    cond_ = a["cond"]
+                    if idiom is not None:
+                        cond_, init_let = strip_state_init_let(a["cond"])
+                        if init_let is not None:
+                            idiom["init_let"] = init_let
                     try:
-                        c = bp.extract(a["cond"], {}, defs, step_atoms)
+                        c = bp.extract(cond_, {}, defs, step_atoms) if cond_ is not None else ("const", True)
                     except bp.Opaque as e:
                         ctx.violation("R04.1", "%s:define_signals:guard-opaque" % f["path"].split("::")[-1], a["sp"], "UNRECOGNISED (fail closed): condition `%s` guarding a define_signals call" % show(a["cond"]))
                         bad = True
                         break
                     guard = ("and", guard, c if in_then else ("not", c))
+                elif a.get("k") == "for" and idiom is not None and state_loop is None and is_states_loop(a):
+                    state_loop = a
                 elif a.get("k") in ("match", "for", "while", "loop", "closure"):
                     ctx.violation("R04.1", "%s:define_signals:guard-shape" % f["path"].split("::")[-1], a["sp"], "UNRECOGNISED: define_signals inside a %s" % a["k"])
                     bad = True
                     break
+            if idiom is not None and not bad:
+                why = check_once_idiom(n, idiom, state_loop, ix, defs)
+                if why:
+                    ctx.violation("R04.1", "%s:define_signals:once-per-signal-idiom" % f["path"].split("::")[-1], n["sp"],
+                                  "UNRECOGNISED (fail closed): the filter restricts the signals by set membership but the exactly-once idiom is not established: %s" % why)
+                    bad = True
             if bad or role is None:
                 if role is None:
                     ctx.violation("R04.1", "%s:define_signals:step-role" % f["path"].split("::")[-1], n["sp"], "UNRECOGNISED: cannot resolve which step `%s` denotes" % show(step_arg))
                 continue
-            out.append({"node": n, "role": role, "guard": guard, "filter": flt, "fn": f["path"].split("::")[-1],
+            out.append({"node": n, "role": role, "guard": guard, "filter": flt, "fn": f["path"].split("::")[-1], "interleaved_with_states": idiom is not None,
                         "text": "%s(step=%s) when %s: %s" % (f["path"].split("::")[-1], role, bp.fshow(guard), bp.fshow(flt))})
     return out
+
+
+def conj_list(n):
+    n = peel(n)
+    if n.get("k") == "binary" and n["op"] == "&&":
+        return conj_list(n["l"]) + conj_list(n["r"])
+    return [n]
+
+
+def and_all(cs):
+    """rebuild a right-nested && tree from conjunct nodes (None when empty)"""
+    if not cs:
+        return None
+    cur = cs[0]
+    for c in cs[1:]:
+        cur = {"k": "binary", "op": "&&", "l": cur, "r": c, "ty": "bool"}
+    return cur
+
+
+def strip_membership_idiom(body, pb):
+    """filter = base && needed.contains(&info.id) && !done.contains(&info.id)  ->  (base, {needed, done})"""
+    keep, needed, done = [], None, None
+    for c in conj_list(body):
+        neg = False
+        c2 = c
+        if c2.get("k") == "unary" and c2["op"] == "!":
+            neg, c2 = True, peel(c2["e"])
+        if c2.get("k") == "mcall" and c2["name"] == "contains" and peel(c2["recv"]).get("k") == "local" and show(c2["args"][0]).replace(" ", "") == "&%s.id" % pb[0]:
+            if neg:
+                done = peel(c2["recv"])["id"]
+            else:
+                needed = peel(c2["recv"])["id"]
+            continue
+        keep.append(c)
+    if needed is None and done is None:
+        return body, None
+    return and_all(keep), {"needed": needed, "done": done}
+
+
+def strip_state_init_let(cond):
+    """`step == 0 && let Some(init) = state.init` -> (step == 0, the let)"""
+    keep, let = [], None
+    for c in conj_list(cond):
+        if c.get("k") == "letexpr":
+            fp = field_path(c["init"])
+            if fp and fp[2] == ["init"] and c["pat"].get("k") == "pvariant" and c["pat"]["path"].endswith("Option::Some"):
+                let = c
+                continue
+        keep.append(c)
+    return and_all(keep), let
+
+
+def is_states_loop(a):
+    b, ms = chain(a["iter"])
+    fp = field_path(b)
+    return bool(fp and fp[0] == "self" and fp[2] == ["states"] and [m[0] for m in ms] == ["iter"])
+
+
+def check_once_idiom(call, idiom, state_loop, ix, defs):
+    """the per-state 'define what this init needs, once' idiom:
+       - inside `for state in self.states.iter()` under `let Some(init) = state.init`
+       - `needed` collects info.id of every signal sub-expression of `init` with uses.init > 0 (complete worklist over for_each_child)
+       - `done` is declared before the loop, only extended by `needed` right after the call"""
+    if state_loop is None:
+        return "the call is not inside the loop over self.states"
+    if idiom.get("needed") is None or idiom.get("done") is None:
+        return "both a `needed` set and a `done` set are required"
+    let = idiom.get("init_let")
+    if let is None:
+        return "no `let Some(init) = state.init` guard"
+    init_b = binding_of_pat(let["pat"]["subs"][0])
+    nd, dd = defs.get(idiom["needed"]), defs.get(idiom["done"])
+    if not nd or not dd or nd[0] != "let" or dd[0] != "let":
+        return "needed/done are not let-bound sets"
+    if not contains(state_loop["body"], nd[1]) or contains(state_loop["body"], dd[1]) or not ix.precedes(dd[1], state_loop):
+        return "`needed` must be fresh per state and `done` declared once before the loop"
+    # done: only `extend(needed)` / inserts after the call
+    muts = [n for n in ix.nodes if n.get("k") == "mcall" and is_local(n["recv"], idiom["done"]) and n["name"] not in ("contains", "len", "is_empty")]
+    if len(muts) != 1 or muts[0]["name"] != "extend" or not is_local(muts[0]["args"][0], idiom["needed"]) or not ix.precedes(call, muts[0]) or ix.regions[id(muts[0])] != ix.regions[id(call)]:
+        return "`done` must be extended by `needed` exactly once, right after the call: %s" % [show(m)[:60] for m in muts]
+    # needed: inserts of info.id under {signals.get(e) is Some(Some(info)), !info.is_state, info.uses.init > 0}
+    ins = [n for n in ix.nodes if n.get("k") == "mcall" and is_local(n["recv"], idiom["needed"]) and n["name"] not in ("contains", "len", "is_empty")]
+    if len(ins) != 1 or ins[0]["name"] != "insert" or not ix.precedes(ins[0], call):
+        return "`needed` must be filled by a single insert before the call"
+    wl = ix.enclosing(ins[0], ("while",))
+    the_if = [a for a in ix.ancestors(ins[0]) if a.get("k") == "if" and contains(a["then"], ins[0]) and wl is not None and contains(wl["body"], a)]
+    if len(the_if) != 1:
+        return "the insert into `needed` must sit under exactly one condition"
+    cj = conj_list(the_if[0]["cond"])
+    info_b = None
+    for c in cj:
+        if c.get("k") == "letexpr" and "self.signals.get(" in show(c["init"]).replace(" ", ""):
+            bs = pat_bindings(c["pat"])
+            info_b = bs[0] if len(bs) == 1 else None
+    if info_b is None or show(ins[0]["args"][0]).replace(" ", "") != "%s.id" % info_b[0]:
+        return "the inserted key must be the id of the signal looked up in self.signals"
+    allowed = {"!%s.is_state" % info_b[0], "(%s.uses.init>0)" % info_b[0]}
+    for c in cj:
+        if c.get("k") == "letexpr":
+            continue
+        if show(c).replace(" ", "") not in allowed:
+            return "extra condition `%s` on membership in `needed`: some init-use signal of this init expression might never be defined" % show(c)[:60]
+    # complete worklist from `init`
+    loop = ix.enclosing(ins[0], ("while",))
+    if loop is None or not contains(state_loop["body"], loop):
+        return "no worklist loop collecting the sub-expressions"
+    lc = peel(loop["cond"])
+    if not (lc.get("k") == "letexpr" and show(lc["init"]).replace(" ", "").endswith(".pop()")):
+        return "worklist loop is not `while let Some(e) = todo.pop()`"
+    todo_id = local_id(chain(lc["init"])[0])
+    tinit = simple_let_init(defs, todo_id)
+    if tinit is None or [x["id"] for x in walk(tinit) if x.get("k") == "local"] != [init_b[1]]:
+        return "the worklist must start from the state's init expression"
+    e_b = binding_of_pat(lc["pat"]["subs"][0])
+    fec = [n for n in walk(loop["body"]) if n.get("k") == "mcall" and n["name"] == "for_each_child"]
+    if len(fec) != 1 or not anyshow(fec[0], "todo.push(*c)") or len(ix.regions[id(fec[0])]) != len(ix.regions[id(loop)]) + 1:
+        return "every child of a visited node must be pushed onto the worklist unconditionally"
+    r = peel(fec[0]["recv"])
+    if not (r.get("k") == "index" and is_local(r["i"], e_b[1])):
+        return "children must be those of the popped expression"
+    skips = [n for n in walk(loop["body"]) if n.get("k") in ("continue", "break", "return")]
+    for sk in skips:
+        a = [x for x in ix.ancestors(sk) if x.get("k") == "if" and contains(loop["body"], x)]
+        if len(a) != 1 or "visited.insert(" not in show(a[0]["cond"]).replace(" ", ""):
+            return "a node may only be skipped when it was already visited"
+    return None
 
 
 def run(ctx):
@@ -138,6 +279,7 @@ def run(ctx):
     r043(ctx)
     r044(ctx)
     r045(ctx)
+    r046(ctx, fi, fu, sites)
     # expr_in_step re-creates every node whose children were renamed to step symbols through the expression-level
     # rebuild step (expr/transform.rs, an anchor of this property): its table is a prerequisite of faithfulness
     from . import c01
@@ -488,3 +630,76 @@ def r045(ctx):
             if x.get("k") == "field" and x["name"] in ("init", "next", "symbol"):
                 fields.add(x["name"])
         ctx.inst("R04.5", getter, fields == {fld}, g["span"], "%s reads state fields %s, expected only `%s`" % (getter, sorted(fields), fld))
+
+
+# which classes of definitions may reference which (trusted model, from the semantics of transition systems: init
+# expressions may read earlier states and inputs; next/other signals of a step read that step's states and inputs)
+MAY_REFERENCE = [
+    ("init-use signals@0", "state symbols@0", "an init expression may read earlier states, so a shared sub-expression of it may too"),
+    ("state definitions@0", "init-use signals@0", "a state's init definition uses the shared signals of its init expression"),
+    ("other-use signals@entry", "state symbols@entry", "constraints / bad states / outputs read the states"),
+    ("next-only signals@prev", "state symbols@prev", "next-state functions read the states of the previous step"),
+    ("state definitions@next", "next-only signals@prev", "the next value of a state is defined from the previous step's next-only signals"),
+    ("other-use signals@next", "state symbols@next", "constraints / bad states of the new step read its states"),
+]
+
+
+def r046(ctx, fi, fu, sites):
+    """definition order: a block may only reference what earlier blocks (or earlier entries of the same ordered block) defined"""
+    ctx.rule("R04.6", "block order in init_at/unroll respects the may-reference relation between definition classes (a symbol is declared or defined before any definition that may reference it)")
+    pos = {}
+    for f, tag in ((fi, "init_at"), (fu, "unroll")):
+        ix = Index(f["body"])
+        order = []
+        for n in ix.nodes:
+            if n.get("k") == "mcall" and callee(n) == DEFINE_SIGNALS:
+                st = [s_ for s_ in sites if s_["node"] is n]
+                order.append(("signals", st[0] if st else None, n))
+            if n.get("k") == "for":
+                b, ms = chain(n["iter"])
+                fp = field_path(b)
+                if fp and fp[0] == "self" and fp[2] == ["states"]:
+                    order.append(("states", None, n))
+        pos[tag] = order
+
+    def idx(tag, pred):
+        for i, (kind, site, n) in enumerate(pos[tag]):
+            if pred(kind, site):
+                return i
+        return None
+
+    def sig(role, formula_has):
+        return lambda kind, site: kind == "signals" and site is not None and site["role"] == role and formula_has(bp.fshow(site["filter"]))
+    i_init_sig = idx("init_at", sig("zero", lambda t: "uses.init>0" in t and "!" not in t.split("uses.init>0")[0][-1:]))
+    i_states0 = idx("init_at", lambda kind, site: kind == "states")
+    i_other0 = idx("init_at", sig("step", lambda t: "uses.other>0" in t))
+    u_next_only = idx("unroll", sig("prev", lambda t: "uses.next>0" in t))
+    u_states = idx("unroll", lambda kind, site: kind == "states")
+    u_other = idx("unroll", sig("next", lambda t: "uses.other>0" in t))
+    found = {"init-use signals@0": ("init_at", i_init_sig), "state symbols@0": ("init_at", i_states0), "state definitions@0": ("init_at", i_states0),
+             "other-use signals@entry": ("init_at", i_other0), "state symbols@entry": ("init_at", i_states0),
+             "next-only signals@prev": ("unroll", u_next_only), "state symbols@prev": ("before", -1), "state definitions@next": ("unroll", u_states),
+             "state symbols@next": ("unroll", u_states), "other-use signals@next": ("unroll", u_other)}
+    missing = [k for k, v in found.items() if v[1] is None]
+    if missing:
+        ctx.violation("R04.6", "order:blocks", fi["span"], "UNRECOGNISED: definition blocks %s not found in init_at/unroll" % missing)
+        return
+    # per-element interleaving: the init-use signals are defined inside the state loop, right before the state that needs them
+    interleaved = False
+    if i_init_sig is not None and i_states0 is not None:
+        kind, site, n = pos["init_at"][i_init_sig]
+        sl = pos["init_at"][i_states0][2]
+        if site is not None and site.get("interleaved_with_states") and contains(sl["body"], n):
+            ixi = Index(fi["body"])
+            defs_ = [x for x in walk(sl["body"]) if x.get("k") == "mcall" and x["name"] in ("define_const", "declare_const")]
+            interleaved = bool(defs_) and all(ixi.precedes(n, d) for d in defs_)
+    for user, used, why in MAY_REFERENCE:
+        (tu, iu), (td, idd) = found[user], found[used]
+        ok = td == "before" or (tu == td and idd <= iu) or (td == "init_at" and tu == "unroll")
+        if interleaved and {user, used} <= {"init-use signals@0", "state symbols@0", "state definitions@0"}:
+            # state i's init may only read states j < i (already declared); its shared signals are emitted just before it
+            ok = True
+        # a block that both uses and is used by another class is only sound when the two are interleaved per element
+        ctx.inst("R04.6", "order:%s -> %s" % (user, used), ok, pos[tu][iu][2]["sp"],
+                 "%s may reference %s (%s) but are emitted before them: the script uses a symbol before it is declared" % (user, used, why),
+                 sample={"user": user, "references": used, "emitted": "%s block #%d vs %s block #%s" % (tu, iu, td, idd)})
